@@ -934,7 +934,7 @@ func (r *FeatureLocal) Information() *model.NodeManagementDetailedDiscoveryFeatu
 
 	res := model.NodeManagementDetailedDiscoveryFeatureInformationType{
 		Description: &model.NetworkManagementFeatureDescriptionDataType{
-			FeatureAddress:    r.Address(),
+			FeatureAddress:    r.address,
 			FeatureType:       &r.ftype,
 			Role:              &r.role,
 			Description:       r.description,
